@@ -9,6 +9,7 @@ import (
 	"fmt"
 	"os"
 	"path/filepath"
+	"runtime"
 	"sort"
 	"strconv"
 	"sync"
@@ -100,8 +101,94 @@ func (s *Set) ReplayRemembered(intn func(int) int, rounds int, between func()) {
 			prev = m.key
 		}
 	}
+	// one more pass on a single P: a result must not depend on how many processors the runtime may use
+	old := runtime.GOMAXPROCS(1)
+	prev := "(start of single-P pass)"
+	for i := n - 1; i >= 0; i-- {
+		m := s.remembered[i]
+		Begin("repeat-on-one-P:"+m.key, m.replay)
+		got := m.run()
+		End()
+		count++
+		if got != m.first && !reported[m.key] {
+			reported[m.key] = true
+			s.Fail(GoFail{Key: "history:" + m.key, What: "the same call gave a different result with GOMAXPROCS=1",
+				Replay: map[string]interface{}{"call": m.replay, "first_result": clip(m.first), "later_result": clip(got), "previous_call": prev, "gomaxprocs": 1}})
+		}
+		prev = m.key
+	}
+	runtime.GOMAXPROCS(old)
 	s.Extra["repeated_calls"] = count
 	s.Extra["repeated_calls_rule"] = "every remembered call repeated in reverse, original and shuffled order with unrelated library calls in between; result must equal the first (model-compared) result"
+}
+
+// ReplayConcurrently repeats the remembered calls from `workers` goroutines at once (each goroutine walks
+// the whole list from its own starting point, `rounds` times). The calls work on distinct values, so the
+// library must give every one its first, model-compared result again; a call that does not come back
+// within the deadline is reported as a hang. The run closures must not share mutable harness state.
+func (s *Set) ReplayConcurrently(workers, rounds int, deadline time.Duration) {
+	n := len(s.remembered)
+	if n == 0 {
+		return
+	}
+	var mu sync.Mutex
+	bad := map[string][2]string{}
+	var calls int64
+	var wg sync.WaitGroup
+	for g := 0; g < workers; g++ {
+		wg.Add(1)
+		go func(g int) {
+			defer wg.Done()
+			local := int64(0)
+			for r := 0; r < rounds; r++ {
+				for k := 0; k < n; k++ {
+					m := s.remembered[(k+g*n/workers+r)%n]
+					got := func() (out string) {
+						defer func() {
+							if rec := recover(); rec != nil {
+								out = fmt.Sprintf("panic: %v", rec)
+							}
+						}()
+						return m.run()
+					}()
+					local++
+					if got != m.first {
+						mu.Lock()
+						if _, seen := bad[m.key]; !seen && len(bad) < 50 {
+							bad[m.key] = [2]string{m.first, got}
+						}
+						mu.Unlock()
+					}
+				}
+			}
+			mu.Lock()
+			calls += local
+			mu.Unlock()
+		}(g)
+	}
+	done := make(chan struct{})
+	go func() { wg.Wait(); close(done) }()
+	select {
+	case <-done:
+	case <-time.After(deadline):
+		s.Fail(GoFail{Key: "hang:concurrent-replay", What: fmt.Sprintf("%d goroutines repeating the remembered calls did not finish within %v (deadlock or livelock in the library)", workers, deadline),
+			Replay: map[string]interface{}{"workers": workers, "calls": n}})
+		_ = s.Finish()
+		os.Exit(0)
+	}
+	for key, v := range bad {
+		var rp map[string]interface{}
+		for _, m := range s.remembered {
+			if m.key == key {
+				rp = m.replay
+				break
+			}
+		}
+		s.Fail(GoFail{Key: "concurrent:" + key, What: fmt.Sprintf("the same call gave a different result while %d goroutines were calling the library on other values", workers),
+			Replay: map[string]interface{}{"call": rp, "sequential_result": clip(v[0]), "concurrent_result": clip(v[1]), "workers": workers}})
+	}
+	s.Extra["concurrent_calls"] = calls
+	s.Extra["concurrent_calls_rule"] = fmt.Sprintf("%d goroutines x %d rounds over every remembered call; each result must equal the sequential, model-compared one", workers, rounds)
 }
 
 func clip(x string) string {
@@ -110,6 +197,8 @@ func clip(x string) string {
 	}
 	return x
 }
+
+var failMu sync.Mutex
 
 // ---- watchdog: an implementation call that does not return is a finding, not a stuck check ----
 var (
@@ -154,8 +243,12 @@ func New(id, dir, module, rule string) *Set {
 	return &Set{ID: id, Dir: dir, Module: module, ShardSize: 500, Rule: rule, Extra: map[string]interface{}{}}
 }
 
-func (s *Set) Add(c Case)          { s.cases = append(s.cases, c) }
-func (s *Set) Fail(f GoFail)       { s.fails = append(s.fails, f) }
+func (s *Set) Add(c Case) { s.cases = append(s.cases, c) }
+func (s *Set) Fail(f GoFail) {
+	failMu.Lock()
+	s.fails = append(s.fails, f)
+	failMu.Unlock()
+}
 func (s *Set) Len() int            { return len(s.cases) }
 func (s *Set) Exhaustive(n string) { s.Exhaust = append(s.Exhaust, n) }
 
